@@ -1238,6 +1238,18 @@ int main(int argc, char** argv) {
     Filename2CName(CTargName, TargName);
     NumCBlocks = 0;
 
+    /* -r names the address range of the segment that is converted: with -segment
+       that is the forced one, not the code segment (whose limits -r stores) */
+
+    if ((ForceSegment != SegNone) && (ForceSegment != SegCode)) {
+        if (!StartAuto) {
+            StartAdr[ForceSegment] = StartAdr[SegCode];
+        }
+        if (!StopAuto) {
+            StopAdr[ForceSegment] = StopAdr[SegCode];
+        }
+    }
+
     if (StartAuto || StopAuto) {
         int  z;
         Byte ChkSegment = ForceSegment ? ForceSegment : (Byte)SegCode;
